@@ -71,7 +71,7 @@ __CPROVER_ensures(__CPROVER_return_value <= 8 * count)
 
 /* Ghost indices shared by the ring contracts below; the harness fixes them, nothing else assigns them:
  * g_el_i = a ring position, g_el_k = a byte position in a 32-byte string (message, e0, bitmap). */
-#if defined(EL_BORROMEAN_VERIFY) || defined(EL_BORROMEAN_SIGN) || defined(EL_WL_KEYS_MSG) || defined(EL_SJ_PUBKEYS) || defined(EL_SJ_GENRAND) || defined(EL_SJ_GENMSG)
+#if defined(EL_GHOST_INDEX) || defined(EL_BORROMEAN_VERIFY) || defined(EL_BORROMEAN_SIGN) || defined(EL_WL_KEYS_MSG) || defined(EL_SJ_PUBKEYS) || defined(EL_SJ_GENRAND) || defined(EL_SJ_GENMSG)
 size_t g_el_i, g_el_k, g_el_b;     /* g_el_b = a byte position in a 64-byte object (tag / public key) */
 #endif
 
@@ -187,9 +187,17 @@ __CPROVER_ensures(g_oc_n == __CPROVER_old(g_oc_n) + 1 && g_oc_ret == __CPROVER_r
  * r->infinity = 0 are structural facts of the body (two assignments), PROVED by C08.set_xquad_frame. */
 #ifdef EL_SET_XQUAD
 int g_xq_n, g_xq_ret; secp256k1_fe g_xq_x; secp256k1_ge g_xq_r;
+#ifdef EL_SET_XQUAD_WATCH         /* result of call number g_el_i (ghost fixed by the harness) */
+secp256k1_ge g_xq_wr;
+#endif
 static int secp256k1_ge_set_xquad(secp256k1_ge *r, const secp256k1_fe *x)
 __CPROVER_requires(__CPROVER_w_ok(r, sizeof(*r)) && __CPROVER_r_ok(x, sizeof(*x)) && fe_mag(x, 1))
+#ifdef EL_SET_XQUAD_WATCH
+__CPROVER_assigns(*r, g_xq_n, g_xq_ret, g_xq_x, g_xq_r, g_xq_wr)
+__CPROVER_ensures((size_t)__CPROVER_old(g_xq_n) == g_el_i ? GE_EQ(g_xq_wr, *r) : GE_KEEP(g_xq_wr))
+#else
 __CPROVER_assigns(*r, g_xq_n, g_xq_ret, g_xq_x, g_xq_r)
+#endif
 __CPROVER_ensures(__CPROVER_return_value == 0 || __CPROVER_return_value == 1)
 __CPROVER_ensures(r->infinity == 0 && FE_EQ_OLD(r->x, *x) && fe_mag(&r->y, 1))
 __CPROVER_ensures(g_xq_n == __CPROVER_old(g_xq_n) + 1 && g_xq_ret == __CPROVER_return_value && FE_EQ_OLD(g_xq_x, *x) && GE_EQ(g_xq_r, *r))
@@ -236,11 +244,20 @@ __CPROVER_ensures(g_hp_n == __CPROVER_old(g_hp_n) + 1 && g_hp_ret == __CPROVER_r
 #ifdef EL_GEJ_ADD_GE_VAR
 #ifdef EL_GEJ_ADD_GE_VAR_LOG
 size_t g_aj_n, g_aj_roff; secp256k1_gej g_aj_a; secp256k1_ge g_aj_b; int g_aj_seen;
+#ifdef EL_GEJ_ADD_GE_VAR_CHAIN     /* additionally: result of call number g_el_i - 1 and of the last call */
+secp256k1_gej g_aj_prev, g_aj_last;
+#endif
 #endif
 static void secp256k1_gej_add_ge_var(secp256k1_gej *r, const secp256k1_gej *a, const secp256k1_ge *b, secp256k1_fe *rzr)
 __CPROVER_requires(__CPROVER_w_ok(r, sizeof(*r)) && __CPROVER_r_ok(a, sizeof(*a)) && __CPROVER_r_ok(b, sizeof(*b)) && rzr == NULL && gej_ok(a) && ge_ok(b))
 #ifdef EL_GEJ_ADD_GE_VAR_LOG
+#ifdef EL_GEJ_ADD_GE_VAR_CHAIN
+__CPROVER_assigns(*r, g_aj_n, g_aj_roff, g_aj_a, g_aj_b, g_aj_seen, g_aj_prev, g_aj_last)
+__CPROVER_ensures(GEJ_EQ(g_aj_last, *r))
+__CPROVER_ensures(__CPROVER_old(g_aj_n) + 1 == g_el_i ? GEJ_EQ(g_aj_prev, *r) : GEJ_KEEP(g_aj_prev))
+#else
 __CPROVER_assigns(*r, g_aj_n, g_aj_roff, g_aj_a, g_aj_b, g_aj_seen)
+#endif
 __CPROVER_ensures(g_aj_n == __CPROVER_old(g_aj_n) + 1)
 __CPROVER_ensures(__CPROVER_old(g_aj_n) == g_el_i
     ? (g_aj_seen == 1 && g_aj_roff == __CPROVER_POINTER_OFFSET(r) && GEJ_EQ_OLD(g_aj_a, *a) && GE_EQ_OLD(g_aj_b, *b))
@@ -257,6 +274,27 @@ static int secp256k1_whitelist_tweak_pubkey(const secp256k1_hash_ctx *hash_ctx, 
 __CPROVER_requires(hash_ctx != NULL && __CPROVER_rw_ok(pub_tweaked, sizeof(*pub_tweaked)) && gej_ok(pub_tweaked))
 __CPROVER_assigns(*pub_tweaked)
 __CPROVER_ensures((__CPROVER_return_value == 0 || __CPROVER_return_value == 1) && gej_ok(pub_tweaked))
+;
+#endif
+
+/* hash-to-curve map (Shallue - van de Woestijne): ORACLE; inputs and outputs of the first two calls logged */
+#ifdef EL_SVDW
+int g_sv_n; secp256k1_fe g_sv_t0, g_sv_t1; secp256k1_ge g_sv_r0, g_sv_r1;
+static void shallue_van_de_woestijne(secp256k1_ge* ge, const secp256k1_fe* t)
+__CPROVER_requires(__CPROVER_w_ok(ge, sizeof(*ge)) && __CPROVER_r_ok(t, sizeof(*t)) && fe_mag(t, 1))
+__CPROVER_assigns(*ge, g_sv_n, g_sv_t0, g_sv_t1, g_sv_r0, g_sv_r1)
+__CPROVER_ensures(ge_ok1(ge) && ge->infinity == 0 && g_sv_n == __CPROVER_old(g_sv_n) + 1)
+__CPROVER_ensures(__CPROVER_old(g_sv_n) == 0 ? (FE_EQ_OLD(g_sv_t0, *t) && GE_EQ(g_sv_r0, *ge)) : (FE_KEEP(g_sv_t0) && GE_KEEP(g_sv_r0)))
+__CPROVER_ensures(__CPROVER_old(g_sv_n) == 1 ? (FE_EQ_OLD(g_sv_t1, *t) && GE_EQ(g_sv_r1, *ge)) : (FE_KEEP(g_sv_t1) && GE_KEEP(g_sv_r1)))
+;
+#endif
+/* group addition (mixed, constant time): ORACLE; call counter and the result of the last call */
+#ifdef EL_GEJ_ADD_GE
+int g_ag_n; secp256k1_gej g_ag_last;
+static void secp256k1_gej_add_ge(secp256k1_gej *r, const secp256k1_gej *a, const secp256k1_ge *b)
+__CPROVER_requires(__CPROVER_w_ok(r, sizeof(*r)) && __CPROVER_r_ok(a, sizeof(*a)) && __CPROVER_r_ok(b, sizeof(*b)) && gej_ok(a) && ge_ok(b) && !b->infinity)
+__CPROVER_assigns(*r, g_ag_n, g_ag_last)
+__CPROVER_ensures(gej_ok(r) && g_ag_n == __CPROVER_old(g_ag_n) + 1 && GEJ_EQ(g_ag_last, *r))
 ;
 #endif
 
